@@ -2,21 +2,24 @@
 (***************************************************************************)
 (* Recorded fault-free runs of the real AIGER parsers (ASCII and binary,   *)
 (* the streaming section readers and the parse() convenience functions)    *)
-(* against the reference reading AigerRef!ReadLoc of the input:            *)
+(* against the reference reading AigerRef!ReadLocE of the input:           *)
 (*   - a run that ends without an error: the reference accepts the input   *)
 (*     and the items returned are exactly the reference's - every number   *)
 (*     as written, every declared limit respected (C06);                   *)
 (*   - a run that ends with a syntax error: the reference rejects the      *)
 (*     input too (nothing well-formed is refused, C03), the position the   *)
 (*     error was raised at lies on the first offending token (C08), and    *)
-(*     the items handed out before it are the ones in front of that token. *)
+(*     the items handed out before it are the ones in front of that token; *)
+(*   - with one byte per read, an entry is handed out before anything      *)
+(*     behind its last byte (the newline of its line, the last byte of a   *)
+(*     binary and-gate) has been pulled from the source (C09).             *)
 (* Other runs and other parsers in the same file are skipped.              *)
 (***************************************************************************)
 EXTENDS AigerRef, Json, IOUtils, TLC
 
 Rec == ndJsonDeserialize(IOEnv.TRACE)
-VARIABLES l, active, vis, binary, stream, ty, items, failed, gupos
-tvars == <<l, active, vis, binary, stream, ty, items, failed, gupos>>
+VARIABLES l, active, refr, stream, exact, delivered, items, failed, gupos
+tvars == <<l, active, refr, stream, exact, delivered, items, failed, gupos>>
 \* stream: "all" every entry of every section is read; "some" sections are left early (the transition functions pass
 \* over the rest): the items are then a subsequence of the reference's; "none": parse() returns one value at the end
 RECURSIVE IsSubseq(_, _)
@@ -34,42 +37,50 @@ OnToken(p, lo, hi) == p >= lo /\ (p < hi \/ p = lo)
 TReset ==
   /\ IsEv("reset")
   /\ active' = (R.kind = "parser" /\ R.parser \in Aiger /\ ~R.faulty /\ ~R.long /\ R.pre = 0)
-  /\ vis' = (IF R.kind = "parser" /\ R.parser \in Aiger THEN R.input ELSE <<>>)
-  /\ binary' = (R.kind = "parser" /\ R.parser \in {"aig", "aig_parse", "aig_skip"})
+  \* the reference reading of the whole input, once per run
+  /\ refr' = (IF active' THEN ReadLocE(R.input, R.parser \in {"aig", "aig_parse", "aig_skip"}, R.lit) ELSE <<"none">>)
   /\ stream' = (IF R.kind = "parser" /\ R.parser \in {"aag", "aig"} THEN "all"
                 ELSE IF R.kind = "parser" /\ R.parser \in {"aag_skip", "aig_skip"} THEN "some" ELSE "none")
-  /\ ty' = (IF R.kind = "parser" /\ R.parser \in Aiger THEN R.lit ELSE "usize")
+  /\ exact' = (active' /\ R.policy = "fixed1" /\ ~R.bufreader)
+  /\ delivered' = 0
   /\ items' = <<>> /\ failed' = "" /\ gupos' = -1
+
+TSrc ==
+  /\ active /\ IsEv("src")
+  /\ delivered' = delivered + R.n
+  /\ UNCHANGED <<active, refr, stream, exact, items, failed, gupos>>
 
 TRet ==
   /\ active /\ IsEv("pret")
   /\ items' = IF R.res \in {"ok", "some"} /\ R.item \notin NonItems THEN Append(items, R.item) ELSE items
+  \* C09: the entry just handed out is complete at Ends[i]; nothing behind that has been pulled
+  /\ (exact /\ stream = "all" /\ items' # items /\ Len(items') <= Len(refr[2])) => delivered <= refr[2][Len(items')][2]
   /\ failed' = (IF failed # "" THEN failed ELSE IF R.res = "panic" THEN "panic" ELSE IF R.res = "err" THEN R.kind ELSE "")
-  /\ UNCHANGED <<active, vis, binary, stream, ty, gupos>>
+  /\ UNCHANGED <<active, refr, stream, exact, delivered, gupos>>
 
 \* the position a syntax error is raised at (LineReader::give_up_at)
 TGu ==
   /\ active /\ IsEv("gu")
   /\ gupos' = (IF R.io THEN gupos ELSE R.pos)
-  /\ UNCHANGED <<active, vis, binary, stream, ty, items, failed>>
+  /\ UNCHANGED <<active, refr, stream, exact, delivered, items, failed>>
 
 TEnd ==
   /\ active /\ IsEv("pend")
-  /\ \E r \in {ReadLoc(vis, binary, ty)} :
-       /\ failed = "" => r[1] = "ok" /\ ItemsOk(items, r[2])
-       /\ failed = "syntax" => /\ r[1] = "bad"
-                               /\ OnToken(gupos, r[3], r[4])
-                               /\ ItemsOk(items, r[2])
-  /\ UNCHANGED <<active, vis, binary, stream, ty, items, failed, gupos>>
+  /\ failed = "" => refr[1] = "ok" /\ ItemsOk(items, Items(refr[2]))
+  /\ failed = "syntax" => /\ refr[1] = "bad"
+                          /\ OnToken(gupos, refr[3], refr[4])
+                          /\ ItemsOk(items, Items(refr[2]))
+  /\ UNCHANGED <<active, refr, stream, exact, delivered, items, failed, gupos>>
 
 TSkip ==
   /\ l <= Len(Rec) /\ l' = l + 1
   /\ \/ ~active /\ R.ev # "reset"
-     \/ active /\ R.ev \notin {"reset", "pret", "pend", "gu"}
-  /\ UNCHANGED <<active, vis, binary, stream, ty, items, failed, gupos>>
+     \/ active /\ R.ev \notin {"reset", "pret", "pend", "gu", "src"}
+  /\ UNCHANGED <<active, refr, stream, exact, delivered, items, failed, gupos>>
 
-TInit == l = 1 /\ active = FALSE /\ vis = <<>> /\ binary = FALSE /\ stream = "none" /\ ty = "usize" /\ items = <<>> /\ failed = "" /\ gupos = -1
-TNext == TReset \/ TRet \/ TGu \/ TEnd \/ TSkip
+TInit == l = 1 /\ active = FALSE /\ refr = <<"none">> /\ stream = "none" /\ exact = FALSE /\ delivered = 0
+         /\ items = <<>> /\ failed = "" /\ gupos = -1
+TNext == TReset \/ TSrc \/ TRet \/ TGu \/ TEnd \/ TSkip
 TSpec == TInit /\ [][TNext]_tvars
 
 Accepted ==
